@@ -396,8 +396,22 @@ func c16(c *core.Ctx, r *core.Report) {
 					return in
 				}
 			case *ssa.IndexAddr:
-				if len(an.StoresTo(x)) > 0 {
-					return x
+				for _, st := range an.StoresTo(x) {
+					// an element rewritten in place from its own old value (`keys[i] = sanitize(keys[i])`) keeps every name
+					// at its position: the list is renamed, not re-ordered
+					elementwise := false
+					if call, isCall := an.Strip(st.Val).(*ssa.Call); isCall {
+						for _, a := range call.Call.Args {
+							if ld, isLd := a.(*ssa.UnOp); isLd && ld.Op == token.MUL {
+								if src, isIA := ld.X.(*ssa.IndexAddr); isIA && src.X == x.X && src.Index == x.Index {
+									elementwise = true
+								}
+							}
+						}
+					}
+					if !elementwise {
+						return x
+					}
 				}
 			case *ssa.Store:
 				// kept in a local variable (captured by a literal): follow its loads
